@@ -612,6 +612,10 @@ def check_property(prop, tier, seed=0):
             if not found:
                 suffix = ' no-failing-input-found'
             rec['verifier_output'] = r.get('failed')
+            # corroboration by the other engines on the same real function (information for triage: a failed
+            # proof with every executed contract of the function still passing may be proof brittleness)
+            same = [x for x in results.values() if x['engine'] != 'verus' and set(x.get('fns') or []) & set(r.get('fns') or [])]
+            rec['other_engines_on_same_function'] = dict(obligations=len(same), failing=[x['name'] for x in same if x['status'] == 'fail'][:10])
         sig = '%s|%s' % (oid, (r.get('failed') or [{}])[0].get('desc') if r['engine'] == 'kani' and r.get('failed') else oid)
         is_known = None
         for kf in known.get('findings', []):
@@ -626,6 +630,11 @@ def check_property(prop, tier, seed=0):
             what = (r.get('failed') or [''])[0]
             what = what.get('desc') if isinstance(what, dict) else str(what)[:300]
             out_lines.append('  obligation=%s failed: %s' % (oid, what))
+            if rec.get('other_engines_on_same_function') is not None:
+                oe = rec['other_engines_on_same_function']
+                out_lines.append('  other engines on the same function: %d obligation(s), %d failing%s' % (
+                    oe['obligations'], len(oe['failing']), '' if oe['failing'] or not oe['obligations'] else
+                    ' (no executed contract is breached: the failed proof obligation is the only evidence)'))
     for oid in undecided:
         r = results[oid]
         out_lines.append('UNDECIDED property=%s obligation=%s reason=%s' % (prop, oid, (r.get('reason') or '')[:400].replace('\n', ' | ')))
